@@ -990,7 +990,10 @@ Box<ITV>::relation_with(const Constraint& c) const {
             && Poly_Con_Relation::is_included();
         }
       case 1:
-        return Poly_Con_Relation::is_included();
+        // The equality `b == 0', with `b > 0', is inconsistent.
+        return c.is_equality()
+          ? Poly_Con_Relation::is_disjoint()
+          : Poly_Con_Relation::is_included();
       }
     }
     else {
